@@ -58,6 +58,17 @@ def gen(ctx):
     for _ in range(ctx.n(400, 6000)):
         dag = bs.pool_dag(rng)
         out.append((dag, bs.packed_sequence(rng, dag, fill_bias=rng.random() < 0.4)))
+    # exact fit / one bit too many, for every kind of writer: the cell is filled so that the value ends exactly at bit
+    # 1023 (must be accepted and read back) or at bit 1024 (must be refused)
+    fits = [("b", 0), ("b", 1), ("mref", None), ("mref", 0), ("u", 1, 1), ("i", 1, -1), ("c", 0), ("vu", 3, 0)]
+    for _ in range(ctx.n(120, 1200)):
+        fits.append(bs.rand_val_op(rng, len(dag0)))
+    for op in fits:
+        nb, nr = bs.op_bits(op, dag0)
+        if nb < 1 or nb > 1023 or nr > 4:
+            continue
+        for over in (0, 1):
+            out.append((dag0, [("bits", cells.rand_bits(rng, 1023 - nb + over)), op]))
     for ln in [0, 1, 126, 127, 128, 253, 254, 255, 381, 382, 1000] + [rng.randrange(0, 3000) for _ in range(ctx.n(5, 60))]:
         data = rng.randbytes(ln).hex()
         out.append((dag0, [("snake", data)]))
